@@ -10,6 +10,7 @@ import (
 	"bytes"
 	"encoding/json"
 	"fmt"
+	"github.com/openconfig/ygot/ygot"
 	stdpath "path"
 	"sort"
 	"strings"
@@ -534,6 +535,22 @@ func (w *world) validAnchors(g []int, md mode) []int {
 type renderCfg struct {
 	md mode
 	jo model.JSONOpts
+	// legacyPrefix: the prefix of requests and notifications is given in the deprecated string-slice form
+	// (Path.element, one string per element with the keys inside), which PathToString still reads
+	legacyPrefix bool
+}
+
+// legacyPath rewrites p into the deprecated Path.element form.
+func legacyPath(p *gpb.Path) *gpb.Path {
+	if p == nil || len(p.Elem) == 0 {
+		return p
+	}
+	strs, err := ygot.PathToStrings(p)
+	if err != nil {
+		panic("HARNESS-BUG: prefix cannot be written in the string-slice form: " + err.Error())
+	}
+	//lint:ignore SA1019 deliberately exercising the deprecated field
+	return &gpb.Path{Element: strs, Origin: p.Origin, Target: p.Target}
 }
 
 func lossyWithoutSchema(v model.Val) bool {
@@ -690,6 +707,9 @@ func (w *world) render(r *request, rc renderCfg) *gpb.SetRequest {
 	if r.prefixLen > 0 {
 		ops := r.allOps()
 		sr.Prefix = model.PathProto(w.opElems(ops[0])[:r.prefixLen])
+		if rc.legacyPrefix {
+			sr.Prefix = legacyPath(sr.Prefix)
+		}
 	}
 	for _, o := range r.dels {
 		sr.Delete = append(sr.Delete, w.relPath(w.opElems(o), r.prefixLen))
@@ -747,7 +767,9 @@ func ptextLine(m proto.Message) string { return prototext.MarshalOptions{}.Forma
 func genWorld(rt *rapid.T, lowKeys bool) *world {
 	v := variants.Get("vocu")
 	o := model.GenOpts{NoState: true, NoUnkeyed: true, MaxList: 3, MaxLL: 3,
-		Want: func(f *model.FieldInfo) bool { return f.Kind == model.FCont || f.Kind == model.FList || f.Kind == model.FOrdList }}
+		Want: func(f *model.FieldInfo) bool {
+			return f.Kind == model.FCont || f.Kind == model.FList || f.Kind == model.FOrdList
+		}}
 	if rapid.IntRange(0, 3).Draw(rt, "sparse") == 0 {
 		o.Sparse = true
 	}
